@@ -3,7 +3,7 @@ pyasn1/codec/ber/decoder.py."""
 import z3
 from z3 import Bool, Int, And, Or, Not
 
-from pyvc.core import (Contract, Loop, PInt, PBool, PConst, PObj, POneOf, PDerived, POptions, Obj, Tup, FnV, ExcV, _Raise,
+from pyvc.core import (Contract, Loop, PInt, PBool, PConst, PObj, POneOf, PDerived, POptions, Obj, Tup, FnV, ExcV, _Raise, ClassV,
                        DictV, NOVALUE, BoolSort, SeqV, toint, concrete, Unsupported)
 from pyvc.models import PStream
 from contracts.streaming import _read_model
@@ -154,3 +154,37 @@ ANY_CAPTURE = [Contract(
     external=['captures-whole-element', 'consumed', 'one-result']) for mode in ('complete',)]
 
 CONTRACTS = [CHOICE_SET] + CHOICE_CLEAR + [NATIVE_SET] + ANY_CAPTURE
+
+
+# ---- Choice.__eq__: same alternative, equal values (C19 comparison; C03/C04: the encoders' DEFAULT test) ------------------
+def _choice_val(prefix):
+    def mk(ex, env):
+        name = 'alt.%s' % prefix
+        idx = Int(prefix + '.idx')
+        comp = Obj('Component', {}, {'__eq__': lambda ex2, self, other: _comp_eq(ex2, self, other),
+                                     '__ne__': lambda ex2, self, other: Not(_comp_eq(ex2, self, other))},
+                   name=prefix + '.component')
+        has = Bool(prefix + '.hasValue')
+        vals = Obj('list', {'__truthy__': has}, {'__getitem__': lambda ex2, self, i: comp}, name=prefix + '._componentValues')
+        return Obj('Choice', {'_componentValues': vals, '_currentIdx': idx, 'chosen': comp},
+                   {'getName': lambda ex2, self: idx, 'getComponent': lambda ex2, self: comp}, ('Choice',), name=prefix)
+    return mk
+
+
+def _comp_eq(ex, a, b):
+    # equality of the chosen components: an arbitrary relation of the two (opaque) values; comparing a component with a
+    # whole CHOICE object is what the method must not do
+    if isinstance(b, Obj) and b.cls == 'Choice':
+        raise _Raise(ExcV('PyAsn1Error'))
+    return Bool('components.equal')
+
+
+CHOICE_EQ = Contract(
+    id='type.univ::Choice.__eq__[choice-vs-choice]', file=U, qual='Choice.__eq__', properties=['C19', 'C04', 'C03'],
+    params=dict(self=PDerived(_choice_val('a')), other=PDerived(_choice_val('b'))),
+    globals={'Choice': ClassV('Choice'), 'eqc': Bool('components.equal'), 'ha': Bool('a.hasValue'), 'hb': Bool('b.hasValue'),
+             'ia': Int('a.idx'), 'ib': Int('b.idx')},
+    requires=['ha'],
+    ensures=[('same-alternative-and-equal-values', 'result == (hb and ia == ib and eqc)')],
+    note='(alternative names are modelled by their indices: getName() is injective on the alternatives of one type)')
+CONTRACTS = CONTRACTS + [CHOICE_EQ]
